@@ -22,7 +22,7 @@ TRUSTED = [
     '_constructed_sql_cache, _insert_cache, the per-entity SQL caches, query_results) happen on two fresh in-memory SQLite databases with the same initial rows',
 ]
 ASSUMPTIONS = [
-    'one thread, one database; the histories are sequences of query executions (14 query texts incl. string slices, getattr, in-lists of several lengths, None / bool / '
+    'one thread, one database; the histories are sequences of query executions (14 query texts - in the search 16, the two extra ones inline a plain Python helper whose free module variable changes value and type between executions - incl. string slices, getattr, in-lists of several lengths, None / bool / '
     'int / str parameters; fetch, count, exists, first, page, [:2]) interleaved with attribute assignments, creations, deletions, flush, commit, session '
     'boundaries, raw SQL writes and bulk deletes',
     'raw SQL parameter substitution (adapt_sql and its cache) is property C30; decompiler caches for lambdas / generator objects (ast_cache keyed by code object) '
@@ -204,7 +204,7 @@ def search(ctx, deep):
     evals, nontriv = 0, set()
     dist = {'histories': 0, 'query_steps': 0, 'diverging_steps_by_key': seen}
     hs = corpus_histories()
-    hs += [H5.gen_history(ctx.rng, z['steps']) for _ in range(z['search_histories'])]
+    hs += [H5.gen_history(ctx.rng, z['steps'], helpers=True) for _ in range(z['search_histories'])]
     for h in hs:
         try:
             bad, warm, cold = divergences(h)
